@@ -151,7 +151,7 @@ int main(int argc, char** argv) {
         // reader has ~450 decision points per execution (~10^5 schedules per configuration at bound 2): bound <= 1 in quick
         for (auto& c : cover) {
             const std::string f = fmt;
-            const int kq = (f == "pbf" || f == "o5m") ? 2 : (f == "opl" && pool == 2 && c.qsize == "2") ? 2 : 1;
+            const int kq = (c.big || c.slow) ? 1 : (f == "pbf" || f == "o5m") ? 2 : (f == "opl" && pool == 2 && c.qsize == "2") ? 2 : 1;
             add(c, T ? 3 : kq, true, 16);
         }
     }
